@@ -252,6 +252,8 @@ def shapeop_case(rng, tier):
     if op == 'reshape':
         s, t = rng.choice([((2, 3), (3, 2)), ((2, 3), (6,)), ((4,), (2, 2)), ((2, 2, 3), (4, 3)), ((3,), (3, 1)), ((6,), (1, 2, 3))])
         c['x'], c['shape'] = intdata(rng, (D, P) + s), list(t)
+        # the forms NumPy accepts for a shape: tuple, list, Python int / NumPy integer (1-D target), tuple of NumPy integers, method call
+        c['form'] = rng.choice(['tuple', 'tuple', 'list', 'npints', 'method', 'method-list'] + (['int', 'npint', 'method-npint'] if len(t) == 1 else []))
     elif op in ('transpose', 'T', 'triu', 'tril', 'trace', 'diag2'):
         if op in ('transpose', 'T'):
             # any number of array axes (NumPy's .T reverses all of them)
@@ -291,6 +293,8 @@ def shapeop_case(rng, tier):
             c['n'] = rng.randint(1, 6)          # truncating / zero-padding transform length
     else:
         c['x'] = intdata(rng, (D, P) + tuple(rng.randint(1, 3) for _ in range(rng.randint(0, 2))))
+        if op in ('zeros', 'ones'):
+            c['form'] = rng.choice(['tuple', 'tuple', 'list', 'npints', 'nparray'])
     return c
 
 
@@ -307,13 +311,32 @@ def _ax(a):
     return tuple(a) if isinstance(a, list) else a
 
 
+def _shape_form(shape, form):
+    """the shape argument in one of the forms NumPy accepts"""
+    shape = tuple(int(k) for k in shape)
+    form = (form or 'tuple').replace('method-', '').replace('method', 'tuple')
+    if form == 'list':
+        return list(shape)
+    if form == 'npints':
+        return tuple(np.int64(k) for k in shape)
+    if form == 'nparray':
+        return np.array(shape)
+    if form == 'int':
+        return shape[0]
+    if form == 'npint':
+        return np.prod(shape)          # numpy.int64, the usual x.reshape(numpy.prod(x.shape)) idiom
+    return shape
+
+
 def shapeop_fails(ctx, case):
     op = case['op']
     x = np.array(case['x'])
     D, P = x.shape[:2]
     u = UTPM(x.copy())
     fns = {
-        'reshape': (lambda v: algopy.reshape(v, tuple(case['shape'])), lambda a: a.reshape(tuple(case['shape']))),
+        'reshape': ((lambda v: v.reshape(_shape_form(case['shape'], case.get('form')))) if str(case.get('form')).startswith('method')
+                    else (lambda v: algopy.reshape(v, _shape_form(case['shape'], case.get('form')))),
+                    lambda a: np.reshape(a, _shape_form(case['shape'], case.get('form')))),
         'transpose': (lambda v: algopy.transpose(v), lambda a: a.T),
         'T': (lambda v: v.T, lambda a: a.T),
         'sum': (lambda v: algopy.sum(v, axis=_ax(case.get('axis'))), lambda a: np.sum(a, axis=_ax(case.get('axis')))),
@@ -331,8 +354,8 @@ def shapeop_fails(ctx, case):
         'ifft': (lambda v: algopy.fft.ifft(v, n=case.get('n'), axis=case.get('axis', -1)), lambda a: np.fft.ifft(a, n=case.get('n'), axis=case.get('axis', -1))),
         'zeros_like': (lambda v: algopy.zeros_like(v), lambda a: np.zeros_like(a)),
         'ones_like': (lambda v: algopy.ones_like(v), None),
-        'zeros': (lambda v: algopy.zeros((2, 3), dtype=v), None),
-        'ones': (lambda v: algopy.ones((2, 3), dtype=v), None),
+        'zeros': (lambda v: algopy.zeros(_shape_form((2, 3), case.get('form')), dtype=v), None),
+        'ones': (lambda v: algopy.ones(_shape_form((2, 3), case.get('form')), dtype=v), None),
         'symvec': ((lambda v: algopy.symvec(v)) if case.get('uplo') is None else (lambda v: algopy.symvec(v, case['uplo'])),
                    lambda a: np_symvec(a, case.get('uplo') or 'F')),
         'vecsym': (lambda v: algopy.vecsym(v), lambda a: algopy.utils.vecsym(a)),
